@@ -3,6 +3,7 @@
 use std::io::Write;
 use std::panic::{catch_unwind, AssertUnwindSafe};
 
+use plonky2_field::extension::FieldExtension;
 use plonky2_field::extension::quadratic::QuadraticExtension;
 use plonky2_field::extension::quartic::QuarticExtension;
 use plonky2_field::extension::quintic::QuinticExtension;
@@ -160,6 +161,49 @@ fn ext_carry_cases(o: &mut Out, r: &mut Rng, n: usize) {
             let args5: Vec<u128> = a5.iter().chain(c5.iter()).map(|&v| v as u128).collect();
             o.case("ext5mul", &args5, || fh::ext5_mul(a5, c5).iter().map(|v| v.0).collect());
         }
+    }
+}
+
+/// the linear operations, division and the assigning / iterator forms of the three extension fields
+/// (judged by tools/spec_c14.py only; canonical outputs)
+fn ext_linear_cases(o: &mut Out, r: &mut Rng, b: &[u64], n: usize) {
+    macro_rules! fam {
+        ($D:literal, $T:ident) => {{
+            let a: Vec<u64> = (0..$D).map(|_| mixed_u64(r, b)).collect();
+            let c: Vec<u64> = (0..$D).map(|_| mixed_u64(r, b)).collect();
+            let s = mixed_u64(r, b);
+            let mk = |v: &[u64]| -> $T<F> { let mut arr = [F(0); $D]; for i in 0..$D { arr[i] = F(v[i]); } $T::<F>(arr) };
+            let out = |x: $T<F>| -> Vec<u64> { x.0.iter().map(|y| y.to_canonical_u64()).collect() };
+            let args: Vec<u128> = a.iter().chain(c.iter()).map(|&x| x as u128).collect();
+            let (x, y) = (mk(&a), mk(&c));
+            o.case(concat!("ext", $D, "add"), &args, || out(x + y));
+            o.case(concat!("ext", $D, "sub"), &args, || out(x - y));
+            o.case(concat!("ext", $D, "addassign"), &args, || { let mut z = x; z += y; z -= y; z += y; out(z) });
+            o.case(concat!("ext", $D, "mulassign"), &args, || { let mut z = x; z *= y; out(z) });
+            o.case(concat!("ext", $D, "sum"), &args, || out([x, y, x].into_iter().sum::<$T<F>>()));
+            o.case(concat!("ext", $D, "product"), &args, || out([x, y].into_iter().product::<$T<F>>()));
+            if c.iter().any(|v| v % P != 0) {
+                o.case(concat!("ext", $D, "div"), &args, || out(x / y));
+            }
+            let args1: Vec<u128> = a.iter().map(|&x| x as u128).collect();
+            o.case(concat!("ext", $D, "neg"), &args1, || out(-x));
+            o.case(concat!("ext", $D, "double"), &args1, || out(x.double()));
+            let mut args_s = args1.clone(); args_s.push(s as u128);
+            o.case(concat!("ext", $D, "scalarmul"), &args_s, || out(<$T<F> as FieldExtension<$D>>::scalar_mul(&x, F(s))));
+            o.case(concat!("ext", $D, "frombase"), &[s as u128], || out(<$T<F> as FieldExtension<$D>>::from_basefield(F(s))));
+        }};
+    }
+    for _ in 0..n {
+        fam!(2, QuadraticExtension);
+        fam!(4, QuarticExtension);
+        fam!(5, QuinticExtension);
+        // base field: division, cube, doubling, halving, exponentiation by squaring of small powers
+        let (x, y) = (mixed_u64(r, b), mixed_u64(r, b));
+        if y % P != 0 { o.case("div", &[x as u128, y as u128], || vec![(F(x) / F(y)).to_canonical_u64()]); }
+        o.case("cube", &[x as u128], || vec![F(x).cube().to_canonical_u64()]);
+        o.case("double", &[x as u128], || vec![F(x).double().to_canonical_u64()]);
+        o.case("exppow2", &[x as u128, (y % 70) as u128], || vec![F(x).exp_power_of_2((y % 70) as usize).to_canonical_u64()]);
+        o.case("mulu32", &[x as u128, (y & 0xffff_ffff) as u128], || vec![F(x).multiply_accumulate(F(0), F(0)).to_canonical_u64(), (F(x) * F::from_canonical_u32((y & 0xffff_ffff) as u32)).to_canonical_u64()]);
     }
 }
 
@@ -328,6 +372,7 @@ pub fn run(seed: u64, tier: &str, w: &mut dyn Write) -> usize {
     wide_cases(&mut o, &mut r, &b, nrand / 4);
     ext_cases(&mut o, &mut r, &b, nrand / 10);
     ext_carry_cases(&mut o, &mut r, if tier == "thorough" { 400 } else { 60 });
+    ext_linear_cases(&mut o, &mut r, &b, nrand / 20);
     generic_cases(&mut o, &mut r, &b, nrand / 30);
     packed_cases(&mut o, &mut r, &b, nrand / 10);
     o.n
